@@ -394,6 +394,9 @@ func (fr *Frame) binop(x *ssa.BinOp, st *State, g string) {
 		fr.vals[x] = SV{t: fr.f64round(fr.name(x), exact, app("is_int", exact)), typ: x.Type()}
 		return
 	}
+	if !ok && fr.floatMulConst(x, a, b) { // ext_float.go: float64 * positive constant
+		return
+	}
 	if !ok {
 		// floats etc.
 		fc.unsupported("arithmetic on " + x.Type().String())
@@ -565,6 +568,9 @@ func (fr *Frame) convert(x *ssa.Convert, st *State, g string) {
 	default:
 		if tc.sortOf(x.X.Type()) == tc.sortOf(x.Type()) && !(fok && fb.Info()&types.IsFloat != 0) && !(tok && tb.Info()&types.IsFloat != 0) {
 			fr.vals[x] = SV{t: v.t, typ: x.Type()}
+			return
+		}
+		if fr.floatToInt(x, v) { // ext_float.go: float64 -> integer truncates toward zero when in range
 			return
 		}
 		fc.unsupported("conversion " + x.X.Type().String() + " -> " + x.Type().String())
